@@ -77,7 +77,8 @@ DONORS: dict[str, list[Callable[[dict], Any]]] = {
     'NumberExpr': [lambda c: M.NumberExpr.from_value(D(7)), lambda c: _p('1 + 2', M.NumberExpr)],
     'EscapedString': [lambda c: M.EscapedString.from_value('z'), lambda c: M.EscapedString.from_value('a"b\\c')],
     'InlineComment': [lambda c: M.InlineComment.from_value('z')],
-    'BlockComment': [lambda c: M.BlockComment.from_value('z', indent=c.get('comment_indent', ''))],
+    'BlockComment': [lambda c: M.BlockComment.from_value('z', indent=c.get('comment_indent', '')),
+                     lambda c: M.BlockComment.from_raw_text(c.get('comment_indent', '') + ';z')],
     'CostSpec': [lambda c: _p('{7 ZZZ}', M.CostSpec), lambda c: _p('{{}}', M.CostSpec)],
     'UnitCost': [lambda c: _p('{7 ZZZ}', M.UnitCost)],
     'TotalCost': [lambda c: _p('{{7 ZZZ}}', M.TotalCost)],
@@ -459,7 +460,7 @@ def enum_model_ops(path: list, m: Any, level: str = 'basic', kinds: Optional[set
             cur = cur_value(m, attr)
             if cur is not None:
                 yield ['setval', path, attr, None]
-            for v in (D(7), D('-1.5')):
+            for v in (D(7), D('-1.5'), D(0)):
                 if v != cur:
                     yield ['setval', path, attr, enc(v)]
         elif isinstance(desc, VP.optional_date_property):
